@@ -136,6 +136,23 @@ class CacheData(Model):
       return InnerProxy(self, m)
     return default
 
+  def py___setitem__(self, ip, m, value):
+    from pyvc.interp import DictLit
+    m = TAtom.enc(ip, m)
+    if isinstance(value, DictLit):
+      im = EMPTY_IM
+      for k, v in value.items.items():
+        ts = TReal.enc(ip, k)
+        im = IM.mkIM(z3.Store(IM.ikeys(im), ts, z3.BoolVal(True)), z3.Store(IM.ivals(im), ts, TVal.enc(ip, v)),
+                     IM.icard(im) + z3.If(z3.Select(IM.ikeys(im), ts), 0, 1))
+    elif isinstance(value, SymMap):
+      im = IM.mkIM(value.keys, value.vals, value.card)
+    elif isinstance(value, InnerProxy):
+      im = value.im()
+    else:
+      raise EngineError("cache[m] = %r" % (value,))
+    self.set_inner(ip, m, im)
+
   def py_pop(self, ip, m):
     m = TAtom.enc(ip, m)
     if not ip.ctx.branch(z3.Select(self.keys, m), 'metric in cache'):
@@ -259,7 +276,7 @@ def _dd(name):
 
 
 DEFAULTDICT = ModelClass('defaultdict', methods={n: _dd(n) for n in (
-  '__getitem__', '__contains__', '__len__', '__bool__', 'get', 'pop', '__delitem__', 'keys', 'items',
+  '__getitem__', '__setitem__', '__contains__', '__len__', '__bool__', 'get', 'pop', '__delitem__', 'keys', 'items',
   '__iter__')})
 
 
@@ -347,3 +364,55 @@ class Harness(object):
         on_release(ip)
     self.ctx.hooks['lock_acquire'] = acq
     self.ctx.hooks['lock_release'] = rel
+
+
+# ------------------------------------------------------------------------------------------------
+# rely / guarantee (DESIGN.md 1.4)
+
+def enable_rely_R(hs):
+  """The function under contract runs on the writer thread W.  Between its atomic steps the
+  reactor thread R may run any number of store() steps.  G_R* (proved of store in the
+  C02/store/* and C09/store/* obligations): metrics and datapoints are only added (values of
+  existing datapoints may be overwritten: last write wins), size and the number of metrics
+  only grow, cacheTooFull may only turn True and only with size >= MAX_CACHE_SIZE, new_metrics
+  only grows at its right end.  Outside lock regions W may observe R in the middle of a store,
+  so I_cache is NOT part of the rely; it is assumed only when the lock is acquired."""
+  ctx = hs.ctx
+  hs.cache.shared = True
+  hs.state.shared = True
+  hs.new_metrics.shared = True
+  hs.rely_steps = 0
+
+  def rely(ip, obj):
+    if getattr(hs, 'quiescent', False):
+      return
+    hs.rely_steps += 1
+    d = hs.data
+    old = d.snapshot()
+    size0 = hs.cache.fields['size']
+    flag0 = hs.state.attrs['cacheTooFull']
+    nm0 = hs.new_metrics.term
+    d.fresh_state(ctx, 'data')
+    size1 = ctx.fresh(z3.IntSort(), 'size')
+    flag1 = ctx.fresh(z3.BoolSort(), 'cacheTooFull')
+    ext = ctx.fresh(z3.SeqSort(Atom), 'nm_ext')
+    m = z3.Const('m?', Atom)
+    t = z3.Real('t?')
+    flag0b = flag0 if z3.is_expr(flag0) else z3.BoolVal(bool(flag0))
+    for f in [
+      z3.ForAll([m], z3.Implies(z3.Select(old.keys, m), z3.Select(d.keys, m))),
+      z3.ForAll([m, t], z3.Implies(z3.And(z3.Select(old.keys, m),
+                                          z3.Select(IM.ikeys(z3.Select(old.inner, m)), t)),
+                                   z3.Select(IM.ikeys(z3.Select(d.inner, m)), t))),
+      z3.ForAll([m], z3.Implies(z3.Select(old.keys, m),
+                                IM.icard(z3.Select(d.inner, m)) >= IM.icard(z3.Select(old.inner, m)))),
+      d.card >= old.card, d.total >= old.total, size1 >= size0,
+      z3.Implies(flag0b, flag1),
+      z3.Implies(z3.And(flag1, z3.Not(flag0b)), z3.And(z3.Not(hs.max_inf), z3.ToReal(size1) >= hs.max)),
+    ]:
+      ctx.assume(f)
+    hs.cache.fields['size'] = size1
+    hs.state.attrs['cacheTooFull'] = flag1
+    hs.new_metrics.term = z3.Concat(nm0, ext)
+  ctx.hooks['yield_point'] = rely
+  hs.rely = rely
